@@ -106,3 +106,63 @@ Example C05_ex_generated :
                 [(0%nat, 72, 120, GuardsProofs.i32le (-1)); (1%nat, 72, 120, GuardsProofs.i32le 0);
                  (1%nat, 65, 114, GuardsProofs.i32le (-1) ++ GuardsProofs.i32le 7)]) = Reject.
 Proof. vm_compute. repeat split. Qed.
+
+(* ==== thread.c / cpu.c from source (unit sys) ==== *)
+(* See the block of the same name in Properties_C04.v.  cpu_update generated from cpu.c - the traversal of cpu->threads
+   as a fold_left, nth_running / nth_active, the oversubscription test, th_running / th_active, the five chan_set
+   through the generated chan.c - refines the primitive cpu_update of Emu/GuardsPre.v (touch + oversubscription
+   test), and what it writes on the five CPU channels are exactly the model's views of the CPU in the new state:
+   v_nrun, v_cpupid, v_cputid, th_running (as a gindex) and the unique active thread (SysProofs.Rel ... (c :: syn),
+   field pr_chans with cpu_views).  CpuOk: the side conditions the C takes for granted (valid list elements,
+   lengths of the bookkeeping lists, fewer than 2^31 threads in the list), consequences of Bind. *)
+From OV Require Emu.ChanPre Emu.SysPre Gen.Sys_gen Proofs.SysProofs.
+Theorem C05_cpu_update_from_source : forall (E : SysPre.senv) st0 st syn w c,
+  SysProofs.Rel (SysPre.se_sx E) st0 st syn w -> mem_nat c syn = false -> SysProofs.CpuOk (SysPre.se_sx E) st c ->
+  match GuardsPre.cpu_update (Some c) (SysPre.se_sx E) st with
+  | Ok (_, st') => exists w', Sys_gen.cpu_update (Some c) E w = Ok (tt, w') /\
+                              SysProofs.Rel (SysPre.se_sx E) st0 st' (c :: syn) w' /\ SysProofs.frame_cpu w w' c
+  | Err e => exists e', Sys_gen.cpu_update (Some c) E w = Err e' /\ e' <> SysPre.E_TRAP
+  end.
+Proof. exact SysProofs.sys_cpu_update. Qed.
+Print Assumptions C05_cpu_update_from_source.
+
+(* a CPU channel that is dirty refuses a second write in the same event: chan.c's "cannot modify dirty channel",
+   derived from the generated chan_set, not postulated *)
+Theorem C05_dirty_cpu_channel_refuses : forall sx w c k ch v0 v nv,
+  (c < length (SysPre.scps w))%nat -> nth_error (SysPre.c_chans (SysPre.scp w c)) k = Some ch ->
+  SysProofs.ChRel true v0 v ch -> ChanPre.is_dirty ch = 1 ->
+  SysPre.chan_set (Some (SysPre.CpC c (Z.of_nat k))) nv sx w = Err ChanPre.E_FAIL.
+Proof. exact SysProofs.chan_set_cpu_dirty. Qed.
+Print Assumptions C05_dirty_cpu_channel_refuses.
+
+(* an affinity event in the C world = the step of the semantic model.  Not covered: an OAr that targets the CPU the
+   remote thread is already on (refused by the model and by ovniemu; in the C world by a dirty CPU channel or by the
+   repeated value of the thread's CPU channel, depending on the thread's state) *)
+Theorem C05_affinity_event_in_c_world_from_source : forall (E : SysPre.senv) st w t cs v p,
+  let sx := SysPre.se_sx E in
+  let e := GuardsProofs.mk_emu t 65 v p in
+  SysProofs.Rel0 sx st w -> Bind sx st ->
+  length (cpu_touched st) = length (cpu_threads st) ->
+  (forall k, Z.of_nat (length (SysProofs.clst st k)) + 1 < 2 ^ 31) ->
+  (t < length (threads st))%nat ->
+  (v = 114 -> forall r old new, GuardsPre.get_thread_cpu sx st (Some r) = Some old ->
+     find_cpu sx (thread_loom sx t) (CInt.ix (GuardsPre.get_emu_ev_payload_i32 sx st e) 0) = Some new -> old <> new) ->
+  match GuardsProofs.fst_res (core_step sx st t (DecodeDefs.decode_ovni cs 65 v p)) with
+  | Ok st' => exists w' syn, SysPre.exec (Sys_gen.model_ovni_event e) E w = Ok w' /\ SysProofs.Rel sx st st' syn w' /\
+              SysProofs.Quiet sx st st' syn
+  | Err _ => exists e', SysPre.exec (Sys_gen.model_ovni_event e) E w = Err e' /\ e' <> SysPre.E_TRAP
+  end.
+Proof. exact SysProofs.sys_affinity_event_eq. Qed.
+Print Assumptions C05_affinity_event_in_c_world_from_source.
+
+(* the generated functions evaluated from the initial C world: thread 0 executes on CPU 0; afterwards its state,
+   TID and CPU channels are dirty with 1, 7, 0 and the CPU's nrunning / PID / TID / th_running / th_active channels
+   are dirty with 1, 1, 7, 0, 0 *)
+Example C05_ex_c_world :
+  match SysProofs.after_execute with
+  | Ok w => (map SysProofs.chan_show (SysPre.s_chans (SysPre.sth w 0)), map SysProofs.chan_show (SysPre.c_chans (SysPre.scp w 0)),
+             SysPre.c_threads (SysPre.scp w 0))
+  | Err _ => ([], [], [])
+  end = ([(1, 1, 0); (1, 1, 7); (1, 1, 1)], [(1, 1, 1); (1, 1, 1); (1, 1, 7); (1, 1, 0); (1, 1, 0)], [0%nat]).
+Proof. vm_compute. reflexivity. Qed.
+(* ==== end of block (unit sys) ==== *)
